@@ -304,13 +304,14 @@ func TestC01(t *testing.T) {
 	}
 	// fixed cases: text whose vocabulary exceeds the thresholds of the TEXT dictionary (tens of thousands of distinct
 	// words in one block), with a fast and a slow entropy codec (they select the two TEXT variants)
-	for _, en := range []string{"HUFFMAN", "FPAQ", "ANS1"} {
+	for i, en := range []string{"HUFFMAN", "FPAQ", "ANS1", "FPAQ", "CM", "HUFFMAN"} {
 		idx0++
 		if !r.Mine(idx0) {
 			continue
 		}
+		// P2 = 100: every word new; 150/180/255: vocabularies of 20000/32000/62000 words used again and again
 		c := C01Case{Cfg: gen.Config{Transform: "TEXT", Entropy: en, BlockSize: 1 << 20, Jobs: 2, Checksum: 32, HintClass: "absent"},
-			Data: gen.Recipe{Kind: gen.KLatin1, Len: 1<<20 + 300000, Seed: uint64(idx0), P1: 0, P2: 100}, ReadJobs: 2}
+			Data: gen.Recipe{Kind: gen.KLatin1, Len: 1<<20 + 300000, Seed: uint64(idx0), P1: 0, P2: []int{100, 150, 180, 255, 160, 200}[i]}, ReadJobs: 2}
 		r.Label("fixed:large-vocabulary")
 		if msg := runC01(r, c); msg != "" {
 			if slug := c01Known(r, c, msg); slug != "" {
